@@ -1,4 +1,44 @@
-(* temporary: replaced by the property theorems *)
-From Rocfl Require Import Model.Commit.
-Theorem C05_placeholder : True. Proof. exact I. Qed.
-Print Assumptions C05_placeholder.
+(** C05 - a kill during commit loses nothing and never yields a silently wrong object.
+
+    Model: Model/FsTree.v (abstract file tree), Model/Commit.v (the commit protocol of repo.rs /
+    store/fs.rs / lock.rs / util.rs as monadic programs; [Kill k] = the process dies on entering
+    its (k+1)-th file-system call).  [commit_pre] is the tree-level StagedWF of DESIGN.md Appendix D
+    plus a sane configuration and a valid main object; [same_type] excludes the declaration swap
+    of an upgrade (see Props/C04.v for that known finding).  The theorems hold for EVERY position
+    k (no bound) and every tree. *)
+From Coq Require Import List NArith Bool.
+From Rocfl Require Import Base.Bytes Model.FsOps Model.FsTree Model.Commit Model.KnownC04
+  Proofs.CommitPre Proofs.CommitPhases Corr.CheckCommit.
+Import ListNotations.
+
+(** (i) every version directory committed before is unchanged (content and inventory copy),
+    (ii) every content file of the version being committed is complete in the staged object or in
+    the object, (iii) the main object is the old one, the new one (= the fault-free result), or
+    rejected by the validator [obj_validb] *)
+Theorem C05_kill_safe :
+  forall (c : cfg) (t0 : tree) (i0 : invr),
+    commit_pre c t0 i0 -> same_type c t0 i0 ->
+    forall k : nat,
+      let t' := run_tree (commit c) t0 (Kill k) in
+      let tnew := run_tree (commit c) t0 NoInj in
+      versions_intact c (earlier_versions i0) t0 t' /\ content_somewhere c i0 t0 t' /\
+      (same_at (c_mo c) t' t0 \/ same_at (c_mo c) t' tnew \/ obj_validb c t' (c_mo c) = false).
+Proof. exact commit_kill_safe. Qed.
+Print Assumptions C05_kill_safe.
+
+(** the precondition is decidable by evaluation: the correspondence check evaluates [commit_pre_b] on
+    the abstracted pre-state of every real scenario *)
+Theorem C05_precondition_checkable :
+  forall c t i, commit_pre_b c t i = true -> commit_pre c t i.
+Proof. exact commit_pre_b_sound. Qed.
+Print Assumptions C05_precondition_checkable.
+
+(** non-vacuity: the hypotheses hold for a concrete second-version commit (one new file, one duplicate
+    in its own directory), and all three classes of clause (iii) occur among its kill positions:
+    old (0), rejected by the validator (2), new (1) *)
+Example C05_nonvacuous :
+  commit_pre_b ex_cfg (ex_tree ex_d10) (ex_inv ex_d10) = true /\
+  same_type_b ex_cfg (ex_tree ex_d10) (ex_inv ex_d10) = true /\
+  map fst (sweep (commit ex_cfg) ex_cfg (ex_tree ex_d10) Kill 32) =
+    [0; 0; 0; 0; 0; 0; 0; 0; 0; 0; 0; 0; 0; 0; 0; 0; 0; 0; 2; 2; 2; 2; 2; 2; 2; 1; 1; 1; 1; 1; 1; 1]%N.
+Proof. vm_compute. repeat split. Qed.
